@@ -15,6 +15,7 @@ mod inventory;
 mod modes;
 mod pool;
 mod post;
+mod sched;
 
 use serde_json::{json, Value};
 use std::io::{BufRead, Write};
